@@ -312,7 +312,10 @@ fn transpose<B: StarkField, const N: usize>(mut segments: Vec<Segment<B, N>>) ->
 
     // determine number of batches in which transposition will be preformed; if `concurrent`
     // feature is not enabled, the number of batches will always be 1
-    let num_batches = get_num_batches(result_len);
+    // the matrix is split into batches of whole rows, so there cannot be more batches than rows
+    // (both numbers are powers of two); without this a matrix with few rows and many segments
+    // would be split into batches of zero rows on a large thread pool and never be transposed
+    let num_batches = core::cmp::min(get_num_batches(result_len), num_rows);
     let rows_per_batch = num_rows / num_batches;
 
     // define a closure for transposing a given batch
